@@ -47,14 +47,16 @@ type vnet struct {
 
 var _ beacon.BeaconNetwork = (*vnet)(nil)
 
-func (n *vnet) ForkVersion() [4]byte                      { return [4]byte{0x99, 0x99, 0x99, 0x99} }
-func (n *vnet) MinGenesisTime() uint64                    { return 0 }
-func (n *vnet) SlotDurationSec() time.Duration            { return 12 * time.Second }
-func (n *vnet) SlotsPerEpoch() uint64                     { return n.spe }
-func (n *vnet) EstimatedCurrentSlot() phase0.Slot         { return phase0.Slot(n.now.Load()) }
-func (n *vnet) EstimatedSlotAtTime(t int64) phase0.Slot   { return phase0.Slot(uint64(t) / 12) }
-func (n *vnet) EstimatedTimeAtSlot(s phase0.Slot) int64   { return int64(s) * 12 }
-func (n *vnet) EstimatedCurrentEpoch() phase0.Epoch       { return n.EstimatedEpochAtSlot(n.EstimatedCurrentSlot()) }
+func (n *vnet) ForkVersion() [4]byte                    { return [4]byte{0x99, 0x99, 0x99, 0x99} }
+func (n *vnet) MinGenesisTime() uint64                  { return 0 }
+func (n *vnet) SlotDurationSec() time.Duration          { return 12 * time.Second }
+func (n *vnet) SlotsPerEpoch() uint64                   { return n.spe }
+func (n *vnet) EstimatedCurrentSlot() phase0.Slot       { return phase0.Slot(n.now.Load()) }
+func (n *vnet) EstimatedSlotAtTime(t int64) phase0.Slot { return phase0.Slot(uint64(t) / 12) }
+func (n *vnet) EstimatedTimeAtSlot(s phase0.Slot) int64 { return int64(s) * 12 }
+func (n *vnet) EstimatedCurrentEpoch() phase0.Epoch {
+	return n.EstimatedEpochAtSlot(n.EstimatedCurrentSlot())
+}
 func (n *vnet) EstimatedEpochAtSlot(s phase0.Slot) phase0.Epoch {
 	return phase0.Epoch(uint64(s) / n.spe)
 }
@@ -74,7 +76,7 @@ func (n *vnet) LastSlotOfSyncPeriod(p uint64) phase0.Slot {
 	lastEpoch := n.FirstEpochOfSyncPeriod(p+1) - 1
 	return n.GetEpochFirstSlot(lastEpoch+1) - 2
 }
-func (n *vnet) GetNetwork() beacon.Network               { return beacon.NewNetwork(spectypes.BeaconTestNetwork) }
+func (n *vnet) GetNetwork() beacon.Network                { return beacon.NewNetwork(spectypes.BeaconTestNetwork) }
 func (n *vnet) GetBeaconNetwork() spectypes.BeaconNetwork { return spectypes.BeaconTestNetwork }
 
 func (n *vnet) epochOf(s uint64) uint64  { return s / n.spe }
@@ -104,7 +106,7 @@ type fetchRec struct {
 	X        uint64
 	Ver      int
 	Indices  map[phase0.ValidatorIndex]bool // what was asked for
-	Returned map[dutyKey]bool                // what was answered
+	Returned map[dutyKey]bool               // what was answered
 }
 
 type world struct {
@@ -124,7 +126,8 @@ type world struct {
 	hist [3]map[uint64][]*fetchRec // successful fetches per role and epoch / period, oldest first
 
 	curEvent int
-	note     func(string) // appends a sub-line to the current event in the log
+	note     func(string)                 // appends a sub-line to the current event in the log
+	onEvents func(func(*eth2apiv1.Event)) // scheduler lane: receives the head-event handler the scheduler subscribes
 
 	nFetch, nFetchFail [3]int64
 }
@@ -296,7 +299,12 @@ func (b *fakeBN) SyncCommitteeDuties(_ context.Context, epoch phase0.Epoch, ix [
 	return out, nil
 }
 
-func (b *fakeBN) Events(context.Context, []string, eth2client.EventHandlerFunc) error { return nil }
+func (b *fakeBN) Events(_ context.Context, _ []string, h eth2client.EventHandlerFunc) error {
+	if b.w.onEvents != nil {
+		b.w.onEvents(h)
+	}
+	return nil
+}
 
 // called from goroutines the handlers spawn: must not touch anything
 func (b *fakeBN) SubmitBeaconCommitteeSubscriptions(context.Context, []*eth2apiv1.BeaconCommitteeSubscription) error {
